@@ -12,11 +12,13 @@ import (
 	"fmt"
 	"math/big"
 	"os"
+	"path/filepath"
 	"reflect"
 	"runtime"
 	"strings"
 	"sync"
 	"testing"
+	"time"
 
 	"github.com/veraison/psatoken"
 	"github.com/veraison/psatoken/encoding"
@@ -50,6 +52,9 @@ type c17Pool struct {
 	dupCBOR  [][]byte
 	dupCOSE  [][]byte
 	longCBOR [][]byte
+	// tokens of an extension profile whose decoder decodes a nested token
+	nestedCBOR [][]byte
+	nestedCOSE [][]byte
 }
 
 type c17Spec struct {
@@ -224,6 +229,17 @@ func buildPool(sp c17Spec) (*c17Pool, error) {
 			}
 		}
 	}
+	for i := 0; i < 2; i++ {
+		inner := baseValid(P2, i).WireBytes()
+		outer := baseValid(P2, i+1)
+		ps := append(bodyPairs(outer), icbor.P(icbor.U(265), icbor.Tstr(NestingP2Name)), icbor.P(icbor.I(-75600), icbor.Bstr(inner)))
+		b := icbor.Encode(icbor.Map(ps...))
+		p.nestedCBOR = append(p.nestedCBOR, b)
+		kp := keyFor(icose.EdDSA, 0)
+		if tok, err := icose.SignedToken(kp.Alg, kp.Priv, b); err == nil {
+			p.nestedCOSE = append(p.nestedCOSE, tok)
+		}
+	}
 	for _, flag := range []uint64{1, 1, 5} {
 		for v := 0; v < 3; v++ {
 			nm := baseValid(P1, v)
@@ -271,7 +287,7 @@ type c17Op struct {
 	A, B int
 }
 
-var c17Kinds = []string{"dec-mutate", "ev-verify-all", "ev-verify-all", "claims-read-all", "dec-dup", "dec-dup", "dec-val-long", "dec-val-long", "reuse", "reuse", "ext-dec-cbor", "ext-dec-json", "ext-bad", "ext-bad", "synth", "synth", "new", "dec-cbor", "dec-json", "dec-cose", "validate", "getter", "getters", "enc-cbor", "enc-json", "venc-cbor", "venc-json",
+var c17Kinds = []string{"dec-nested", "dec-mutate", "ev-verify-all", "ev-verify-all", "claims-read-all", "dec-dup", "dec-dup", "dec-val-long", "dec-val-long", "reuse", "reuse", "ext-dec-cbor", "ext-dec-json", "ext-bad", "ext-bad", "synth", "synth", "new", "dec-cbor", "dec-json", "dec-cose", "validate", "getter", "getters", "enc-cbor", "enc-json", "venc-cbor", "venc-json",
 	"ev-json", "ev-verify", "ev-ids", "sign", "vsign", "setters", "serialize", "populate"}
 
 func idx(n, k int) int { return ((k % n) + n) % n }
@@ -393,6 +409,27 @@ func runOp(p *c17Pool, o c17Op) string {
 		want, _ := psatoken.EncodeClaimsToCBOR(c)
 		return fmt.Sprintf("payload-equal=%v verifies=%v self-verifies=%v", bytes.Equal(parts.Payload, want),
 			icose.Verify(k.Alg, k.Pub, parts.Protected, parts.Payload, parts.Signature), ev.Verify(k.Pub) == nil)
+	case "dec-nested":
+		// a token of an extension profile whose decoder itself calls the
+		// library's dispatching decoder for a nested token
+		var c psatoken.IClaims
+		var err error
+		if o.B%2 == 0 {
+			c, err = psatoken.DecodeClaimsFromCBOR(p.nestedCBOR[idx(len(p.nestedCBOR), o.A)])
+		} else {
+			var ev *psatoken.Evidence
+			if ev, err = psatoken.DecodeEvidenceFromCOSE(p.nestedCOSE[idx(len(p.nestedCOSE), o.A)]); err == nil {
+				c = ev.Claims
+			}
+		}
+		if err != nil {
+			return "err:" + err.Error()
+		}
+		n, ok := c.(*NestingP2Claims)
+		if !ok || n.InnerSet == nil {
+			return fmt.Sprintf("%T without nested set", c)
+		}
+		return ObserveGetters(c) + "//" + ObserveGetters(n.InnerSet)
 	case "dec-mutate":
 		// decode a token (the same bytes other goroutines decode at the same
 		// moment), then change the PRIVATE result through its setters and
@@ -514,6 +551,10 @@ func runOp(p *c17Pool, o c17Op) string {
 	return "?"
 }
 
+// c17Watchdog: how long a concurrent program may run before its goroutines
+// are inspected (a normal program takes a few seconds under the race detector).
+const c17Watchdog = 60 * time.Second
+
 func raceLogSize() int64 {
 	prefix := os.Getenv("VERIF_RACELOG")
 	if prefix == "" {
@@ -541,6 +582,9 @@ func TestC17_Concurrent(t *testing.T) {
 		reps = 3
 	}
 	withExtProfiles(func() {
+		if err := psatoken.RegisterProfile(nestingP2Profile{}); err != nil {
+			t.Fatalf("VERIF-INFRA: %v", err)
+		}
 		rapid.Check(t, func(t *rapid.T) {
 			var sp c17Spec
 			nm := rapid.IntRange(3, 8).Draw(t, "nmodels")
@@ -571,7 +615,7 @@ func TestC17_Concurrent(t *testing.T) {
 				// every goroutine STARTS by decoding the same token (right
 				// behind the barrier, so the decodes overlap) and changing
 				// its own result
-				scripts[g] = append([]c17Op{{"dec-mutate", 0, g % 10}, {"dec-mutate", 0, (g + 3) % 10}}, scripts[g]...)
+				scripts[g] = append([]c17Op{{"dec-nested", 0, g % 2}, {"dec-mutate", 0, g % 10}, {"dec-mutate", 0, (g + 3) % 10}}, scripts[g]...)
 			}
 			progSerial++
 			sp.Synth = progSerial*1000 + os.Getpid()%1000
@@ -604,7 +648,43 @@ func TestC17_Concurrent(t *testing.T) {
 					}()
 				}
 				close(start)
-				wg.Wait()
+				finished := make(chan struct{})
+				go func() { wg.Wait(); close(finished) }()
+				select {
+				case <-finished:
+				case <-time.After(c17Watchdog):
+					// not a timing verdict: look at WHAT the goroutines are doing.
+					// If every unfinished script is parked on a synchronisation
+					// primitive inside the library, nothing can ever wake them.
+					buf := make([]byte, 8<<20)
+					buf = buf[:runtime.Stack(buf, true)]
+					blocked, busy := 0, 0
+					for _, g := range strings.Split(string(buf), "\n\n") {
+						if !strings.Contains(g, "github.com/veraison/psatoken") || !strings.Contains(g, "TestC17_Concurrent") {
+							continue
+						}
+						head := g[:strings.IndexByte(g+"\n", '\n')]
+						switch {
+						case strings.Contains(head, "chan send"), strings.Contains(head, "chan receive"), strings.Contains(head, "select"), strings.Contains(head, "semacquire"), strings.Contains(head, "sync.Mutex"), strings.Contains(head, "sync.RWMutex"), strings.Contains(head, "sync.Cond"), strings.Contains(head, "sync.WaitGroup"):
+							blocked++
+						default:
+							busy++
+						}
+					}
+					dump := os.Getenv("VERIF_RACELOG") + ".deadlock." + fmt.Sprint(os.Getpid())
+					if !(blocked > 0 && busy == 0) {
+						dump = filepath.Join(filepath.Dir(os.Getenv("VERIF_RACELOG")), "inconclusive-goroutines."+fmt.Sprint(os.Getpid()))
+					}
+					_ = os.WriteFile(dump, buf, 0o644)
+					if blocked > 0 && busy == 0 {
+						// rapid would re-run (and re-deadlock) the program while
+						// shrinking: report and leave; the driver takes the dump
+						// (a race.* file) as the replay of the violation
+						fmt.Printf("C17 violated: after %v %d goroutines running read-side operations are all parked on a channel / lock INSIDE the library and none is runnable: the operations deadlock when run concurrently (goroutine dump in %s)\n", c17Watchdog, blocked, dump)
+						os.Exit(3)
+					}
+					t.Fatalf("VERIF-INFRA: concurrent program did not finish within %v (%d goroutines blocked in the library, %d busy): inconclusive (dump in %s)", c17Watchdog, blocked, busy, dump)
+				}
 				if after := raceLogSize(); after != before {
 					t.Fatalf("C17 violated: the race detector reported a data race while %d goroutines ran read-side operations (report in %s.%d)", G, os.Getenv("VERIF_RACELOG"), os.Getpid())
 				}
